@@ -54,7 +54,7 @@ def export_panic_rule(crate, prop):
                    "%d panic-capable call(s) to %s on the export path with no justification (a panic here escapes export()/export_all() instead of an Err)" % (len(ss), callee),
                    ss[0]["file"], ss[0]["line"], chain=_chain(parent, ss[0]["caller"]))
     r.stats = {"reachable_bodies": len(reach), "sites": len(sites)}
-    r.floor = 5
+    r.floor = 4
     return r
 
 
